@@ -191,7 +191,7 @@ def oracle(data, r):
                 return ('charset', 'decoded with %r, the header names %r' % (got_cs, cs), None)
         return None
     if ML.swap_ctxt(got) == want:
-        return ('ctxt-swapped', 'msgctxt and msgid exchanged: the returned msgid is not the string after the EOT byte', 'D15')
+        return ('ctxt-swapped', 'msgctxt and msgid exchanged: the returned msgid is not the string after the EOT byte', 'D18')
     return ('misread', 'a returned string is not the bytes at the declared offset and length', None)
 
 
